@@ -752,7 +752,8 @@ Qed.
 
 Lemma step_bit_frame st it F : F <> d_type it -> isSet (step_spec st it) F = isSet st F.
 Proof.
-  intros H. step_intro it ty Hlt. unfold_ids. step_cases; step_fin.
+  intros H. step_intro it ty Hlt. unfold_ids. step_cases; step_fin;
+  replace (F =? ty) with false by lia; reflexivity.
 Qed.
 
 Lemma step_num_own st it : isSet st (d_type it) = false -> is_numeric_type (d_type it) = true ->
@@ -802,4 +803,150 @@ Lemma step_other st it :
   other (step_spec st it) = if d_type it =? CC_OTHER then join2 (other st) it else other st.
 Proof.
   step_intro it ty Hlt. unfold_ids. step_cases; step_fin.
+Qed.
+
+(* --- invariant of the object during parsing: an unset directive holds its default --- *)
+Definition cc_inv (st : cc) : Prop :=
+  (forall F, is_numeric_type F = true -> isSet st F = false -> get_num st F = (-1)%Z) /\
+  (isSet st CC_PRIVATE = false -> private_ st = []) /\
+  (isSet st CC_NO_CACHE = false -> no_cache st = []).
+
+Lemma cc_inv_init : cc_inv cc_init.
+Proof.
+  split; [|split]; try reflexivity.
+  intros F HF _. unfold is_numeric_type, get_num, cc_init in *. cbn [max_age s_maxage max_stale stale_if_error min_fresh].
+  repeat match goal with |- context [if ?c then _ else _] => destruct c end; reflexivity.
+Qed.
+
+Lemma eff_numeric_false_type it : eff it = false -> is_numeric_type (d_type it) = true -> d_num it = None.
+Proof.
+  unfold eff. intros H Hn. rewrite Hn in H. destruct (d_num it); [|reflexivity].
+  rewrite orb_true_r in H. discriminate.
+Qed.
+
+Lemma cc_inv_step st it : cc_inv st -> cc_inv (step_spec st it).
+Proof.
+  intros (Hnum & Hp & Hc).
+  destruct (isSet st (d_type it)) eqn:Eset.
+  { destruct (N.eq_dec (d_type it) CC_OTHER) as [Eo|Eo].
+    - (* OTHER: only `other` changes *)
+      split; [|split].
+      + intros F HF HS. rewrite step_num_frame by (rewrite Eo; unfold is_numeric_type, CC_OTHER in *; intros ->; discriminate).
+        rewrite step_bit_frame in HS by (rewrite Eo; unfold is_numeric_type, CC_OTHER in *; intros ->; discriminate).
+        now apply Hnum.
+      + intros HS. rewrite step_priv_frame by (rewrite Eo; discriminate).
+        rewrite step_bit_frame in HS by (rewrite Eo; discriminate). now apply Hp.
+      + intros HS. rewrite step_nc_frame by (rewrite Eo; discriminate).
+        rewrite step_bit_frame in HS by (rewrite Eo; discriminate). now apply Hc.
+    - rewrite (step_dup st it Eset Eo). now repeat split. }
+  split; [|split].
+  - intros F HF HS. destruct (N.eq_dec F (d_type it)) as [->|Hne].
+    + rewrite (step_bit_own st it Eset) in HS. rewrite (step_num_own st it Eset HF), HS. reflexivity.
+    + rewrite (step_num_frame st it F Hne). rewrite (step_bit_frame st it F Hne) in HS. now apply Hnum.
+  - intros HS. destruct (N.eq_dec (d_type it) CC_PRIVATE) as [Et|Hne].
+    + rewrite <- Et in HS. rewrite (step_bit_own st it Eset) in HS. unfold eff in HS. rewrite Et in HS. discriminate.
+    + rewrite (step_priv_frame st it Hne).
+      rewrite (step_bit_frame st it CC_PRIVATE) in HS by congruence. now apply Hp.
+  - intros HS. destruct (N.eq_dec (d_type it) CC_NO_CACHE) as [Et|Hne].
+    + rewrite Et in Eset. rewrite (step_nc_own st it Et Eset (Hc Eset)).
+      rewrite <- Et in HS. rewrite (step_bit_own st it) in HS by (now rewrite Et). unfold eff in HS. rewrite Et in HS.
+      change (is_numeric_type CC_NO_CACHE) with false in HS. change (CC_NO_CACHE =? CC_PRIVATE) with false in HS.
+      change (CC_NO_CACHE =? CC_NO_CACHE) with true in HS. cbv iota in HS.
+      destruct (d_qs it) as [[v| |]|]; try discriminate; reflexivity.
+    + rewrite (step_nc_frame st it Hne).
+      rewrite (step_bit_frame st it CC_NO_CACHE) in HS by congruence. now apply Hc.
+Qed.
+
+(* --- the specification: first effective occurrence decides --- *)
+Definition sel (F : N) (it : bytes) : bool := (d_type it =? F) && eff it.
+Definition spec_bit (its : list bytes) (F : N) : bool := existsb (sel F) its.
+Definition spec_num (its : list bytes) (F : N) : Z :=
+  match find (sel F) its with Some it => num_of it | None => (-1)%Z end.
+Definition spec_text (its : list bytes) (F : N) : bytes :=
+  match find (sel F) its with Some it => qs_text (d_qs it) | None => [] end.
+Definition spec_other (its : list bytes) : bytes :=
+  fold_left join2 (filter (fun it => d_type it =? CC_OTHER) its) [].
+
+Definition fold_items (its : list bytes) (st : cc) : cc := fold_left step_spec its st.
+
+Lemma fold_bit : forall its st F,
+  isSet (fold_items its st) F = isSet st F || spec_bit its F.
+Proof.
+  induction its as [|it its IH]; intros st F; cbn [fold_items fold_left spec_bit existsb]; [now rewrite orb_false_r|].
+  fold (fold_items its (step_spec st it)). rewrite IH. fold (spec_bit its F). unfold sel at 1.
+  destruct (N.eq_dec F (d_type it)) as [->|Hne].
+  - rewrite N.eqb_refl. cbn [andb]. destruct (isSet st (d_type it)) eqn:Es.
+    + destruct (N.eq_dec (d_type it) CC_OTHER) as [Eo|Eo].
+      * (* bit CC_OTHER is never set by the parser, but the statement holds for any st *)
+        assert (isSet (step_spec st it) (d_type it) = true) as ->; [|reflexivity].
+        pose proof (type_lt_end (d_name it)) as Hlt. fold (d_type it) in Hlt. revert Es.
+        step_intro it ty Hlt2. unfold_ids. subst ty. step_cases; step_fin.
+      * rewrite (step_dup st it Es Eo), Es. reflexivity.
+    + rewrite (step_bit_own st it Es). cbn [orb]. reflexivity.
+  - rewrite (step_bit_frame st it F Hne). replace (d_type it =? F) with false by lia. reflexivity.
+Qed.
+
+Lemma sel_same it : sel (d_type it) it = eff it.
+Proof. unfold sel. now rewrite N.eqb_refl. Qed.
+Lemma sel_other F it : F <> d_type it -> sel F it = false.
+Proof. intros H. unfold sel. replace (d_type it =? F) with false by lia. reflexivity. Qed.
+
+Lemma find_sel_cons F it its : find (sel F) (it :: its) = if sel F it then Some it else find (sel F) its.
+Proof. reflexivity. Qed.
+
+Lemma fold_num : forall its st F, cc_inv st -> is_numeric_type F = true ->
+  get_num (fold_items its st) F = if isSet st F then get_num st F else spec_num its F.
+Proof.
+  induction its as [|it its IH]; intros st F Hinv HF; cbn [fold_items fold_left].
+  - unfold spec_num. cbn [find]. destruct (isSet st F) eqn:Es; [reflexivity|]. now apply Hinv.
+  - fold (fold_items its (step_spec st it)). rewrite (IH _ F (cc_inv_step st it Hinv) HF).
+    unfold spec_num. rewrite find_sel_cons.
+    destruct (N.eq_dec F (d_type it)) as [->|Hne].
+    + rewrite sel_same. destruct (isSet st (d_type it)) eqn:Es.
+      * assert (Eo : d_type it <> CC_OTHER) by (intros E; rewrite E in HF; discriminate).
+        rewrite (step_dup st it Es Eo), Es. reflexivity.
+      * rewrite (step_bit_own st it Es), (step_num_own st it Es HF). destruct (eff it); reflexivity.
+    + rewrite (step_bit_frame st it F Hne), (step_num_frame st it F Hne), (sel_other F it Hne). reflexivity.
+Qed.
+
+Lemma fold_private : forall its st, cc_inv st ->
+  private_ (fold_items its st) = if isSet st CC_PRIVATE then private_ st else spec_text its CC_PRIVATE.
+Proof.
+  induction its as [|it its IH]; intros st Hinv; cbn [fold_items fold_left].
+  - unfold spec_text. cbn [find]. destruct (isSet st CC_PRIVATE) eqn:Es; [reflexivity|]. now apply Hinv.
+  - fold (fold_items its (step_spec st it)). rewrite (IH _ (cc_inv_step st it Hinv)).
+    unfold spec_text. rewrite find_sel_cons.
+    destruct (N.eq_dec (d_type it) CC_PRIVATE) as [Et|Hne].
+    + assert (Ee : eff it = true) by (unfold eff; rewrite Et; reflexivity).
+      rewrite <- Et. rewrite sel_same, Ee. destruct (isSet st (d_type it)) eqn:Es.
+      * rewrite (step_dup st it Es) by (rewrite Et; discriminate). rewrite Es. reflexivity.
+      * rewrite (step_bit_own st it Es), Ee. rewrite Et in Es.
+        destruct Hinv as (_ & Hp & _). apply (step_priv_own st it Et Es (Hp Es)).
+    + rewrite (step_bit_frame st it CC_PRIVATE) by congruence. rewrite (step_priv_frame st it Hne).
+      rewrite (sel_other CC_PRIVATE it) by congruence. reflexivity.
+Qed.
+
+Lemma fold_no_cache : forall its st, cc_inv st ->
+  no_cache (fold_items its st) = if isSet st CC_NO_CACHE then no_cache st else spec_text its CC_NO_CACHE.
+Proof.
+  induction its as [|it its IH]; intros st Hinv; cbn [fold_items fold_left].
+  - unfold spec_text. cbn [find]. destruct (isSet st CC_NO_CACHE) eqn:Es; [reflexivity|]. now apply Hinv.
+  - fold (fold_items its (step_spec st it)). rewrite (IH _ (cc_inv_step st it Hinv)).
+    unfold spec_text. rewrite find_sel_cons.
+    destruct (N.eq_dec (d_type it) CC_NO_CACHE) as [Et|Hne].
+    + rewrite <- Et. rewrite sel_same. destruct (isSet st (d_type it)) eqn:Es.
+      * rewrite (step_dup st it Es) by (rewrite Et; discriminate). rewrite Es. reflexivity.
+      * rewrite (step_bit_own st it Es).
+        destruct Hinv as (_ & _ & Hc). rewrite Et in Es. pose proof (step_nc_own st it Et Es (Hc Es)) as Hown.
+        destruct (eff it) eqn:Ee; [exact Hown|reflexivity].
+    + rewrite (step_bit_frame st it CC_NO_CACHE) by congruence. rewrite (step_nc_frame st it Hne).
+      rewrite (sel_other CC_NO_CACHE it) by congruence. reflexivity.
+Qed.
+
+Lemma fold_other : forall its st,
+  other (fold_items its st) = fold_left join2 (filter (fun it => d_type it =? CC_OTHER) its) (other st).
+Proof.
+  induction its as [|it its IH]; intros st; cbn [fold_items fold_left filter]; [reflexivity|].
+  fold (fold_items its (step_spec st it)). rewrite IH, step_other.
+  destruct (d_type it =? CC_OTHER); reflexivity.
 Qed.
